@@ -8,6 +8,12 @@
 //   * `on X valid`   blocks currently reporting the fully-valid level
 // Oracle failures are printed as "!<id> <text>".
 #include "world.hpp"
+#if defined(VERIBLOCK_ALT_INTEGRATION_CPP_VERIF) && defined(__has_include)
+#if __has_include(<veriblock/pop/verif_hooks.hpp>)
+#include <veriblock/pop/verif_hooks.hpp>
+#define SM_HAVE_TRACE 1
+#endif
+#endif
 
 using namespace altintegration;
 
@@ -142,8 +148,59 @@ std::string flagsOf(const BlockIndex<AltBlock>& i) {
   return f.empty() ? "-" : f;
 }
 
+// C20, trace part (guarded hook in PopStateMachine::applyBlock/unapplyBlock): per instance the ALT blocks in the
+// order they were applied; checks the documented discipline (vbk_block_tree.hpp "validation hole"):
+//   * a block is applied on top of an applied parent and is not applied twice,
+//   * a block is unapplied only when none of its children is applied (tip first),
+//   * a block is unapplied only if every block applied after it (and still applied) was fully valid when applied,
+//   * a block reaches BLOCK_CAN_BE_APPLIED for the first time only in an event where exactly root..parent is applied.
+struct Trace {
+  std::vector<std::pair<std::string, bool>> stack;  // (id, fully valid when applied)
+  std::set<std::string> everFull;
+  std::vector<std::string> bad;
+  size_t events = 0;
+  Trace() { stack.push_back({"a0", true}); everFull.insert("a0"); }
+  bool applied(const std::string& id) const {
+    for (auto& e : stack) if (e.first == id) return true;
+    return false;
+  }
+  void onApply(const vw::Registry& reg, const std::string& id, uint32_t status) {
+    events++;
+    auto it = reg.alt.find(id);
+    if (it == reg.alt.end()) { bad.push_back("apply of an unknown block " + id); return; }
+    const std::string& par = it->second.parent;
+    if (applied(id)) bad.push_back("block " + id + " applied twice");
+    if (!applied(par)) bad.push_back("block " + id + " applied on top of the unapplied block " + par);
+    bool full = (status & BLOCK_VALID_MASK) == BLOCK_CAN_BE_APPLIED;
+    if (full && !everFull.count(id)) {
+      auto anc = reg.ancestry(par);
+      bool single = anc.size() == stack.size();
+      for (auto& a : anc) if (!applied(a)) single = false;
+      if (!single) bad.push_back("block " + id + " reported fully valid while applied next to another chain (" +
+                                 std::to_string(stack.size()) + " blocks applied, parent chain has " + std::to_string(anc.size()) + ")");
+      everFull.insert(id);
+    }
+    stack.push_back({id, full});
+  }
+  void onUnapply(const vw::Registry& reg, const std::string& id) {
+    events++;
+    size_t pos = stack.size();
+    for (size_t i = 0; i < stack.size(); i++) if (stack[i].first == id) pos = i;
+    if (pos == stack.size()) { bad.push_back("unapply of the unapplied block " + id); return; }
+    for (auto& e : stack) {
+      auto it = reg.alt.find(e.first);
+      if (it != reg.alt.end() && it->second.parent == id) bad.push_back("block " + id + " unapplied before its applied child " + e.first);
+    }
+    for (size_t i = pos + 1; i < stack.size(); i++)
+      if (!stack[i].second) bad.push_back("block " + id + " unapplied while the not yet validated block " + stack[i].first + " applied after it is still applied");
+    stack.erase(stack.begin() + pos);
+  }
+};
+
 struct SmSession : public vw::Session {
   std::map<std::string, std::set<std::string>> ever;  // instance name -> ids that ever reported full validity
+  std::map<std::string, Trace> traces;                // instance name -> event trace state
+  std::string curInst;
 
   std::string nameOfInst(vw::Instance& I) {
     for (auto& kv : inst) if (kv.second.get() == &I) return kv.first;
@@ -160,6 +217,13 @@ struct SmSession : public vw::Session {
     for (auto i = e.begin(); i != e.end();) {
       auto* w = I.idx(*i);
       if (w == nullptr || w->isDeleted() || (!w->isRoot() && !w->hasFlags(BLOCK_HAS_PAYLOADS))) i = e.erase(i);
+      else ++i;
+    }
+    // a removed / emptied block starts over
+    auto& ef = traces[X].everFull;
+    for (auto i = ef.begin(); i != ef.end();) {
+      auto* w = I.idx(*i);
+      if (w == nullptr || w->isDeleted() || (!w->isRoot() && !w->hasFlags(BLOCK_HAS_PAYLOADS))) i = ef.erase(i);
       else ++i;
     }
   }
@@ -255,10 +319,22 @@ int main() {
   SetLogger<Logger>(LogLevel::off);
   setMockTime(1700000000);
   SmSession s;
+#ifdef SM_HAVE_TRACE
+  verif::popTraceHook() = [&s](bool apply, const std::string& tree, const std::vector<uint8_t>& hash, int32_t, uint32_t status) {
+    if (tree != "ALT" || !s.reg || s.curInst.empty()) return;
+    auto& tr = s.traces[s.curInst];
+    auto bid = s.reg->nameOf(hash);
+    if (apply) tr.onApply(*s.reg, bid, status);
+    else tr.onUnapply(*s.reg, bid);
+  };
+#endif
   return vh::main_loop([&](const std::string& id, const std::string& op, const std::vector<std::string>& a) {
     std::vector<std::string> t{op};
     t.insert(t.end(), a.begin(), a.end());
-    if (op == "begin") s.ever.clear();
+    if (op == "begin") { s.ever.clear(); s.traces.clear(); }
+    s.curInst = (op == "on" || op == "show") && t.size() >= 2 ? t[1] : (op == "twin" && t.size() >= 3 ? t[2] : (op == "begin" ? "A" : ""));
+    if (op == "twin" && t.size() >= 3) s.traces.erase(t[2]);
+    if (op == "inst" && t.size() >= 2) s.traces.erase(t[1]);
     bool guarded = op == "on" && t.size() >= 4 && (t[2] == "set" || t[2] == "cmp") && s.reg && s.inst.count(t[1]);
     Snap before;
     std::string tipBefore;
@@ -281,6 +357,17 @@ int main() {
         bad.insert(bad.end(), sw.begin(), sw.end());
       }
       for (auto& b : bad) vh::oracle_fail(id, "C02 " + t[2] + " " + t[3] + " -> " + r + ": " + b);
+    }
+    if (!s.curInst.empty()) {
+      auto& tr = s.traces[s.curInst];
+      for (size_t k = 0; k < tr.bad.size() && k < 3; k++) vh::oracle_fail(id, "C20 trace: " + tr.bad[k]);
+      tr.bad.clear();
+    }
+    if (op == "on" && t.size() >= 3 && t[2] == "trace") {
+      auto& tr = s.traces[t[1]];
+      std::string r2 = "events=" + std::to_string(tr.events) + " applied=";
+      for (auto& e : tr.stack) r2 += e.first + (e.second ? "" : "?") + ",";
+      return r2;
     }
     if (s.reg && (op == "on" || op == "twin" || op == "show") && t.size() >= 2) {
       s.track(op == "twin" ? t[2] : t[1]);
